@@ -361,6 +361,24 @@ pub fn hostile_call(seed: u64, index: u64) -> Call {
             rng.shuffle(&mut v);
             Call::Compact(v)
         }
+        11 if rng.chance(0.008) => {
+            // a perfectly valid long list: thousands of cells of the target resolution and ONE much coarser cell, placed first,
+            // last or in the middle. The honest result stays below 4^8 cells; an output buffer sized from one element of the list
+            // times its length does not (and a 2 GiB address space then aborts the process)
+            let target = 10 + rng.below(20) as i32;
+            let depth = 5 + rng.below(3) as i32;
+            let coarse = gen::random_cell(rng, target - depth);
+            let len = 1000 + rng.below((MAX_HONEST - fanout(coarse.res, target) - 1000) as u64) as usize;
+            let root = gen::random_cell(rng, target - 8);
+            let mut v: Vec<u64> = children_at(root, target).into_iter().take(len).map(encode).collect();
+            let at = match rng.below(3) {
+                0 => 0,
+                1 => v.len(),
+                _ => rng.usize(v.len()),
+            };
+            v.insert(at, encode(coarse));
+            Call::Uncompact(v, target)
+        }
         11 => {
             let mut res = gen::hostile_res(rng);
             let n = 1 + rng.below(6) as usize;
